@@ -302,10 +302,32 @@ def run(ctx) -> None:
               dt = dotted(t) or ''
               if dt.endswith('.failure_message') or '.error.' in dt or dt.endswith('.status'):
                 has_err = True
+      # Operation.error and Operation.response are members of one oneof: writing the
+      # response after the error silently clears the error.
+      clobber = None
+      seen_err = False
+      for st in n.ast.body:
+        for x in ast.walk(st):
+          d = dotted(x) if isinstance(x, ast.Attribute) else None
+          if d and 'error' in d.split('.')[1:] and isinstance(getattr(x, 'ctx', None), ast.Load):
+            seen_err = True
+          if isinstance(x, ast.Assign):
+            for t in x.targets:
+              dt = dotted(t) or ''
+              if seen_err and 'response' in dt.split('.')[1:]:
+                clobber = x
+          if isinstance(x, ast.Call) and isinstance(x.func, ast.Attribute) and seen_err \
+              and 'response' in (dotted(x.func) or '').split('.')[1:]:
+            clobber = x
+      if clobber is not None:
+        has_err = False
       ctx.check(has_err, 'R2', f'{name}: handler at line {n.lineno}', where(fi, n),
                 'failure path records the error on the operation before closing it',
-                'handler closes the operation without recording an error: the failure is '
-                'reported to the caller as a successful, empty result',
+                ('handler writes Operation.response after Operation.error: both are members of one '
+                 'oneof, so the error is cleared and the failure is reported as a successful result'
+                 if clobber is not None else
+                 'handler closes the operation without recording an error: the failure is '
+                 'reported to the caller as a successful, empty result'),
                 construct=n.ast.type if n.ast.type is not None else 'except', func=fi.qualname)
   ctx.count('rpcs_with_operations', analysed)
   if analysed < 2:
